@@ -14,3 +14,8 @@ Proof. vm_compute. reflexivity. Qed.
 
 Lemma gen_wait_table_is_about_the_pool : wait_table_nonempty gen_poolcalls = true.
 Proof. vm_compute. reflexivity. Qed.
+
+(* no function of the five files returns with a mutex it took and registered no deferred Unlock for: a leaked mutex makes the
+   next acquisition wait for ever (Pool/Progress.v's sections always end) *)
+Lemma gen_no_mutex_is_leaked : gen_lockleaks = nil.
+Proof. reflexivity. Qed.
